@@ -18,6 +18,7 @@ import (
 	"sync/atomic"
 
 	rocksdb "github.com/facebookincubator/dns/dnsrocks/cgo-rocksdb"
+	"github.com/facebookincubator/dns/dnsrocks/verifhook"
 )
 
 // NumberOfIterators is empirically found number of iterators which make sense to keep in pool
@@ -63,6 +64,7 @@ func (pool *IteratorPool) put(e iteratorPoolEntry) {
 // disable call will be blocked until all previously allocated iterators are released (by calling put method)
 // client still can call get() method but all newly created iterators will be ephemeral and not persisted in pool
 func (pool *IteratorPool) disable() {
+	verifhook.YieldLock("iterpool.disable.lock", &pool.l)
 	pool.l.Lock()
 	defer pool.l.Unlock()
 	if atomic.LoadInt32(&pool.enabled) == 0 {
@@ -73,11 +75,13 @@ func (pool *IteratorPool) disable() {
 
 	for i := 0; i < NumberOfIterators; i++ {
 		e := <-pool.iterators
+		verifhook.Yield("iterpool.disable.drained")
 		e.iterator.FreeIterator()
 	}
 }
 
 func (pool *IteratorPool) enable() {
+	verifhook.YieldLock("iterpool.enable.lock", &pool.l)
 	pool.l.Lock()
 	defer pool.l.Unlock()
 
